@@ -173,7 +173,9 @@ void Exec::op_assign(const Json& o,bool move){
   begin(move?"move_assign":"copy_assign","C15");
   int rc=lib_call(c,[&]{ if(move) c.slot[t].v()=std::move(c.slot[s].v()); else c.slot[t].v()=c.slot[s].v(); });
   bool fired=end();
-  int st=settle(rc,fired,expect_throw,"C08","C09",sig);
+  // a source of another size (an empty one included) assigned onto a view of user storage must be rejected: the assignment-time size policy (C14);
+  // letting it through also un-binds or replaces the user's storage silently, which is what a C08 plan is looking for
+  int st=settle(rc,fired,expect_throw,"C08",expect_throw?(plan_prop=="C08"?"C08":"C14"):"C08",sig+(expect_throw?":view-size":""));
   if(st==ST_DONE && s!=t){
     if(mt.kind==K_EXT){
       mset(c,t,sv);                                   // external target: the buffer receives the values
